@@ -32,7 +32,7 @@ def run(ctx):
                    "controller is charged with the fresh-byte count and its error propagated")
     ctx.rule("R3", "credit accounting: sent_data written only by commit(+=)/return_back(-=); Credit built only by "
                    "ArcSendControler::credit; Drop returns the rest; post_sent is the only other writer; new bytes are coloured Pending")
-    ctx.rule("R4", "advertised limits never decrease: RecvController.max_data and Recv.max_stream_data are written only by "
+    ctx.rule("R4", "advertised limits and the received extent never decrease: RecvController.max_data, Recv.max_stream_data and Recv.largest are written only by "
                    "additions or under `new > old`")
     ctx.rule("R5", "prescribed errors present: Recv::recv and RecvController::on_new_rcvd construct FLOW_CONTROL_ERROR")
 
@@ -261,7 +261,7 @@ def run(ctx):
                % (sorted(skip_colours) if skip_colours is not None else "unrecognised"))
 
     # ---------------------------------------------------------------- R4
-    for adt, f in (("RecvController", "max_data"), ("recver::Recv", "max_stream_data")):
+    for adt, f in (("RecvController", "max_data"), ("recver::Recv", "max_stream_data"), ("recver::Recv", "largest")):
         ws = [(b, i, j, p, rv, line) for (b, i, j, p, rv, line) in field_writes(prog, adt, f) if not b.short.endswith("::new")]
         ctx.floor("R4", "%s.%s write sites" % (adt, f), len(ws), 1)
         for (b, i, j, p, rv, line) in ws:
